@@ -446,6 +446,29 @@ theorem createFlagsV2_val (ty core h boot : Nat) (enc : Bool) (ht : ty < 2 ^ 4) 
     simp only [pyShl_nat, pyOr_nat, e1, e2, e3, e4]
 
 
+theorem flags_arith_v1 (ty core h boot e : Nat) (ht : ty < 16) (hc : core < 16) (hh : h < 8) (he : e ≤ 1) (hb : boot < 32768) :
+    ty + core * 16 + h * 256 + e * 2048 + boot * 65536 < 4294967296 ∧
+    (ty + core * 16 + h * 256 + e * 2048 + boot * 65536) / 1 % 16 = ty ∧
+    (ty + core * 16 + h * 256 + e * 2048 + boot * 65536) / 16 % 16 = core ∧
+    (ty + core * 16 + h * 256 + e * 2048 + boot * 65536) / 256 % 8 = h ∧
+    (ty + core * 16 + h * 256 + e * 2048 + boot * 65536) / 2048 % 2 = e ∧
+    (ty + core * 16 + h * 256 + e * 2048 + boot * 65536) / 65536 % 32768 = boot := by
+  refine ⟨by omega, by omega, by omega, by omega, by omega, by omega⟩
+
+theorem flags_arith_v2 (ty core h boot e : Nat) (ht : ty < 16) (hc : core < 16) (hh : h < 16) (he : e ≤ 1) (hb : boot < 32768) :
+    ty + core * 16 + h * 256 + e * 4096 + boot * 65536 < 4294967296 ∧
+    (ty + core * 16 + h * 256 + e * 4096 + boot * 65536) / 1 % 16 = ty ∧
+    (ty + core * 16 + h * 256 + e * 4096 + boot * 65536) / 16 % 16 = core ∧
+    (ty + core * 16 + h * 256 + e * 4096 + boot * 65536) / 256 % 16 = h ∧
+    (ty + core * 16 + h * 256 + e * 4096 + boot * 65536) / 4096 % 2 = e ∧
+    (ty + core * 16 + h * 256 + e * 4096 + boot * 65536) / 65536 % 32768 = boot := by
+  refine ⟨by omega, by omega, by omega, by omega, by omega, by omega⟩
+
+theorem meta_arith (a b m : Nat) (ha : a < 1024) (hb : b < 1024) (hm : m < 256) :
+    a + b * 1024 + m * 1048576 < 268435456 ∧ (a + b * 1024 + m * 1048576) / 1 % 1024 = a ∧
+    (a + b * 1024 + m * 1048576) / 1024 % 1024 = b ∧ (a + b * 1024 + m * 1048576) / 1048576 % 256 = m := by
+  refine ⟨by omega, by omega, by omega, by omega⟩
+
 /-! ### signature block layout -/
 
 theorem al8_spec (n : Nat) : n ≤ al8 n ∧ al8 n % 8 = 0 ∧ al8 n < n + 8 := by
@@ -932,8 +955,6 @@ theorem placeEntries_assigned (ch : Chip) (v : Ver) (base : Nat) : ∀ (ers : Li
     rcases List.mem_cons.1 hp with rfl | hp
     · rfl
     · exact ih.2.2.2 p hp
-
-def allPlaced (us : List UContainer) : List Placed := us.flatMap (·.placed)
 
 theorem updateContainers_assigned (c : Crypto.CryptoOps) (ch : Chip) (v : Ver) : ∀ (cs : List Container) (ix cur : Nat)
     (us : List UContainer), updateContainers c ch v ix cur cs = .ok us → Assigned ch v cur (allPlaced us)
